@@ -90,3 +90,14 @@ Example C04_attribution_witness :
                     existsb (fun p => p_settled p && negb (p_profit p =? 0)) (bk_parts (ms_book (snd e))))
           (c_ms (run c11w_init c11w_ops)) = true.
 Proof. vm_compute. reflexivity. Qed.
+
+From Sge Require Import Gen.kernels Proofs.GenKernels.
+(* "never received any stake" (fee back to the depositor) is the Go method NotParticipatedInBetFulfillment, and the house fee is
+   CalcHouseParticipationFeeAmount: generated from the sources on every run *)
+Theorem C04_kernels_generated : forall p creator dep mkt idx amount wc wt fee,
+  K_OrderBookParticipation_NotParticipatedInBetFulfillment (gp_of p) = (p_tba p =? 0) /\
+  K_Deposit_CalcHouseParticipationFeeAmount
+    {| G_Deposit_Creator := creator; G_Deposit_DepositorAddress := dep; G_Deposit_MarketUID := mkt; G_Deposit_ParticipationIndex := idx;
+       G_Deposit_Amount := amount; G_Deposit_WithdrawalCount := wc; G_Deposit_TotalWithdrawalAmount := wt |} fee = dec_round_int (dec_mulint fee amount).
+Proof. intros. split; reflexivity. Qed.
+Print Assumptions C04_kernels_generated.
